@@ -50,7 +50,7 @@ def py_lookup(data, path):
         elif cur is not None and not isinstance(cur, (list, dict)):
             if p == 'size':
                 s = cur if isinstance(cur, str) else ('true' if cur is True else 'false' if cur is False else str(cur))
-                nxt = len(s.encode('utf-8'))
+                nxt = len(s)
         if nxt is MISSING: return ('missing', n)
         cur = nxt
     return ('ok', cur)
